@@ -1,7 +1,7 @@
 (* Props/C04.v — C04: every registered handler runs exactly once per matching event.
    Property theorems only; each is closed by [exact] of a lemma proved in Proofs/RegistryProofs.v. *)
 From Coq Require Import String.
-From Verif Require Import GoBytes Registry RegistryProofs Consts Facts.
+From Verif Require Import GoBytes Lts Registry RegistryProofs RegLockLts RegLockProofs Consts Facts.
 Open Scope Z_scope.
 
 (* tie: the structural source facts the model and the theorems rest on.
@@ -133,6 +133,77 @@ Example C04_double_remove_panics :
   run_conc conn_init [SReg KFg ex_foo 1%N; SRemove KFg 0%nat; SRemove KFg 0%nat] = Panic.
 Proof. vm_compute. reflexivity. Qed.
 
+(* ---- no deadlock (C04_no_deadlock), on the lock-level LTS of Model/RegLockLts.v ----
+   tie: which of the two dispatcher shapes the source has.  [source_shape] is computed from the
+   translator's skeletons: getHandlers takes RLock and DEFERS RUnlock (so the read lock is released
+   before getHandlers returns), hSet.dispatch itself never touches the lock, and it calls
+   getHandlers before the first "go func"; add and remove take Lock and defer Unlock and call
+   nothing that could block in between. *)
+Fixpoint index_of (x : string) (l : list string) (i : nat) : option nat :=
+  match l with
+  | [] => None
+  | y :: l' => if String.eqb x y then Some i else index_of x l' (S i)
+  end.
+Definition mentions (x : string) (l : list string) : bool :=
+  match index_of x l 0 with Some _ => true | None => false end.
+Definition starts_with (p l : list string) : bool :=
+  (fix go (p l : list string) : bool :=
+     match p, l with
+     | [], _ => true
+     | x :: p', y :: l' => String.eqb x y && go p' l'
+     | _ :: _, [] => false
+     end) p l.
+Definition source_shape : bool :=
+  starts_with ["hs.RLock"; "defer hs.RUnlock"]%string flow_client_hSet_getHandlers
+  && negb (mentions "hs.RLock" flow_client_hSet_dispatch) && negb (mentions "hs.RUnlock" flow_client_hSet_dispatch)
+  && negb (mentions "hs.Lock" flow_client_hSet_dispatch)
+  && match index_of "hs.getHandlers" flow_client_hSet_dispatch 0, index_of "go func" flow_client_hSet_dispatch 0 with
+     | Some i, Some j => Nat.ltb i j
+     | _, _ => false
+     end
+  && starts_with ["hs.Lock"; "defer hs.Unlock"]%string flow_client_hSet_add
+  && starts_with ["hs.Lock"; "defer hs.Unlock"]%string flow_client_hSet_remove.
+Lemma tie_C04_locks : source_shape = true.
+Proof. vm_compute. reflexivity. Qed.
+
+(* For EVERY initial population of free goroutines (arbitrary scripts of Handle*/Remove on any of the
+   three sets and plain steps) and dispatchers (any set, any number of handlers with arbitrary such
+   scripts as bodies) and EVERY schedule: in the reached state, if some goroutine has not finished,
+   some goroutine is enabled. *)
+Theorem C04_no_deadlock : forall l sched,
+  let s := run (lstep source_shape) (linit l) sched in
+  all_done s = false -> exists t, enabled source_shape s t = true.
+Proof. rewrite tie_C04_locks. exact no_deadlock. Qed.
+
+(* the structural invariant it rests on: whoever holds a lock of a set (for writing or reading) is
+   not at a waiting pc (Lock / RLock / wg.Wait), has spawned no handler goroutine, and is enabled —
+   in particular the dispatcher has released RLock before any of its handlers exists *)
+Theorem C04_lock_discipline : forall l sched k t,
+  let s := run (lstep source_shape) (linit l) sched in
+  (writer (tget (locks s) k) = Some t \/ In t (readers (tget (locks s) k))) ->
+  exists x, nth_error (threads s) t = Some x /\ waiting_pc x = false /\ fin x = false
+            /\ kids_of x = [] /\ enabled source_shape s t = true.
+Proof. rewrite tie_C04_locks. exact lock_discipline. Qed.
+
+(* hence a handler (or anyone) that calls Handle*/Remove and finds the lock taken is held up only by
+   a goroutine that can run on to its Unlock — never by its own dispatcher waiting for it *)
+Theorem C04_blocked_lock_has_running_holder : forall l sched t k r,
+  let s := run (lstep source_shape) (linit l) sched in
+  nth_error (threads s) t = Some (TScript (OReg k :: r) 0) -> enabled source_shape s t = false ->
+  exists t', t' <> t /\ enabled source_shape s t' = true
+             /\ (writer (tget (locks s) k) = Some t' \/ In t' (readers (tget (locks s) k))).
+Proof. rewrite tie_C04_locks. exact blocked_lock_has_running_holder. Qed.
+
+(* the alternative shape — RUnlock only after wg.Wait — deadlocks: one foreground dispatcher, one
+   handler whose body calls Handle on the foreground set; schedule [0;0;0;1] *)
+Theorem C04_hold_across_refuted :
+  let s := run (lstep false) (linit bad_init) bad_sched in
+  all_done s = false /\ forall t, enabled false s t = false.
+Proof. exact hold_across_refuted. Qed.
+Example C04_good_shape_completes :
+  all_done (run (lstep source_shape) (linit bad_init) [0; 0; 0; 0; 1; 1; 1; 0]%nat) = true.
+Proof. vm_compute. reflexivity. Qed.
+
 Print Assumptions tie_C04.
 Print Assumptions C04_refines_add.
 Print Assumptions C04_refines_remove.
@@ -145,3 +216,9 @@ Print Assumptions C04_concurrent.
 Print Assumptions C04_ok_says.
 Print Assumptions C04_example.
 Print Assumptions C04_double_remove_panics.
+Print Assumptions tie_C04_locks.
+Print Assumptions C04_no_deadlock.
+Print Assumptions C04_lock_discipline.
+Print Assumptions C04_blocked_lock_has_running_holder.
+Print Assumptions C04_hold_across_refuted.
+Print Assumptions C04_good_shape_completes.
